@@ -1464,6 +1464,12 @@ class Gen:
                 return [(T_WHILE, self.k_for(0, len(enc(pred)) + len(encs(body))), pred, body)]
             if r < 0.28:
                 return [(T_OP, 0xa4, [self.expr(ctx, 1, ctx.get('deferred', False))])]   # Return
+        if ctx.get('method') and not ctx.get('deferred') and 0.28 <= r < 0.31:
+            # a logical operator with constant operands as a statement of its own (fragment F9 of Props/C11_frag.v):
+            # LNot / LAnd / LOr / LEqual / LGreater / LLess - all operands are TermArgs, the first pass leaves them to
+            # the object list and resolveMethodCalls attaches them
+            op, n = rng.choice([(0x92, 1), (0x90, 2), (0x91, 2), (0x93, 2), (0x94, 2), (0x95, 2)])
+            return [(T_OP, op, [self.string() if rng.random() < 0.15 else self.const() for _ in range(n)])]
         if r < 0.4:
             c = self.call(ctx, 1, ctx.get('deferred', False))
             if c is not None:
